@@ -239,14 +239,21 @@ def _coqc(path, timeout):
     return p.returncode, p.stdout
 
 
-def run_model_checks(prop, imports, case_terms, check="check", shard=400, timeout=900, tag="cases"):
+def run_model_checks_multi(prop, imports, case_terms, checks=("check",), shard=400, timeout=900, tag="cases"):
     """case_terms: Gallina terms of the property's `case` type, each embedding the inputs and the
-    implementation's outputs.  `check : case -> bool` is evaluated on every one of them by vm_compute
-    (kernel evaluation of the model's own definitions).  Returns (mismatch indices, error text|None)."""
+    implementation's outputs.  Every function in `checks` (case -> bool) is evaluated on every one of them
+    by vm_compute (kernel evaluation of the model's own definitions); the case file is elaborated once.
+    Returns ({check: mismatch indices}, error text|None)."""
+    # the glue modules the case files import must be up to date with the models (full .vo build)
+    targets = sorted({"%s/%s.vo" % (m.group(1), m.group(2)) for m in re.finditer(r"\b(Corr|Model|Base)\.(\w+)", imports)})
+    if targets:
+        ok, out = build_coq(targets)
+        if not ok:
+            return {c: [] for c in checks}, "building %s failed: %s" % (targets, out[-1500:])
     d = os.path.join(CACHE, "cases", prop)
     os.makedirs(d, exist_ok=True)
     for f in os.listdir(d):
-        if f.startswith(tag):
+        if f.startswith(tag + "_"):
             os.unlink(os.path.join(d, f))
     files = []
     for si, start in enumerate(range(0, len(case_terms), shard)):
@@ -254,22 +261,29 @@ def run_model_checks(prop, imports, case_terms, check="check", shard=400, timeou
         with open(path, "w") as f:
             f.write(imports + "\nImport ListNotations.\nLocal Open Scope Z_scope.\n")
             f.write("Definition the_cases := [\n  %s\n].\n" % ";\n  ".join(case_terms[start:start + shard]))
-            f.write("Eval vm_compute in (mismatches %s the_cases).\n" % check)
+            for c in checks:
+                f.write("Eval vm_compute in (mismatches %s the_cases).\n" % c)
         files.append((start, path))
-    bad = []
+    bad = {c: [] for c in checks}
     err = None
     with cf.ThreadPoolExecutor(max_workers=NPROC) as ex:
         for (start, path), (rc, out) in zip(files, ex.map(lambda sp: _coqc(sp[1], timeout), files)):
             if rc != 0:
                 err = "coqc failed on %s (rc=%s): %s" % (path, rc, out[-1500:])
                 continue
-            m = re.search(r"=\s*(.*?)\s*:\s*list N", out, re.S)
-            if not m:
+            ms = re.findall(r"=\s*(.*?)\s*:\s*list N", out, re.S)
+            if len(ms) != len(checks):
                 err = "unparsable coqc output for %s: %s" % (path, out[-500:])
                 continue
-            for x in re.findall(r"\d+", m.group(1)):
-                bad.append(start + int(x))
-    return sorted(bad), err
+            for c, m in zip(checks, ms):
+                for x in re.findall(r"\d+", m):
+                    bad[c].append(start + int(x))
+    return {c: sorted(v) for c, v in bad.items()}, err
+
+
+def run_model_checks(prop, imports, case_terms, check="check", shard=400, timeout=900, tag="cases"):
+    bad, err = run_model_checks_multi(prop, imports, case_terms, (check,), shard, timeout, tag)
+    return bad[check], err
 
 
 def eval_model(prop, imports, term, timeout=300, tag="replay"):
